@@ -372,14 +372,46 @@ void vh_run_case(Ctx &ctx)
     history += " setModel;";
     checkLookups(ann, m, "setModel", history, sharedImport);
 
+    bool forceAssign = false;
+    std::map<std::string, std::string> previousId; // slot -> the id it carried before an assign call replaced it
     int steps = rng.range(2, 7);
     for (int step = 0; step < steps; ++step) {
         int op = rng.range(0, 11);
+        if (forceAssign) {
+            op = rng.range(3, 8);
+            forceAssign = false;
+        }
         if (op <= 2) {
             // edit the model behind the annotator's back
             auto slots = collect(m);
             auto &s = slots[rng.below(slots.size())];
-            int how = rng.range(0, 3);
+            int how = rng.range(0, 4);
+            if (how == 4) {
+                // put back the id an item had before the annotator replaced it (the model then looks, id for id, as it
+                // did when the annotator last indexed it)
+                std::vector<size_t> cands;
+                for (size_t i = 0; i < slots.size(); ++i) {
+                    auto it = previousId.find(slots[i].where);
+                    if (it != previousId.end() && it->second != slots[i].get()) {
+                        cands.push_back(i);
+                    }
+                }
+                if (cands.empty()) {
+                    how = 0;
+                } else {
+                    auto &t = slots[rng.pick(cands)];
+                    std::string old = previousId[t.where];
+                    t.set(old);
+                    history += " edit:restore(" + t.where + "=" + old + ");";
+                    stat("edits");
+                    stat("edits_restoring_previous_id");
+                    forceAssign = true; // the property speaks about lookups after an assign call: make one next
+                    if (step == steps - 1) {
+                        ++steps;
+                    }
+                    continue;
+                }
+            }
             if (how == 0) {
                 s.set("");
                 history += " edit:clear(" + s.where + ");";
@@ -614,6 +646,9 @@ void vh_run_case(Ctx &ctx)
             const std::string &was = beforeIds[i];
             bool requested = all || before[i].type == reqType || static_cast<int>(i) == single;
             if (!was.empty()) {
+                if (now != was) {
+                    previousId[before[i].where] = was;
+                }
                 if (reassign && static_cast<int>(i) == single) {
                     // the one item that was asked to take a new id
                     if (presentBefore.count(now) != 0U) {
